@@ -29,7 +29,10 @@ import (
 	"encoding/base64"
 	"encoding/json"
 	"fmt"
+	"io"
 	"net/http"
+	"net/http/httptest"
+	"runtime"
 	"sort"
 	"strconv"
 	"strings"
@@ -2296,5 +2299,275 @@ func TestVerifC13Deployed(t *testing.T) {
 
 		w.Put(vf.Obs{I: i, Stream: "deployed", In: tpCase{q}, Out: map[string]c13TPObs{"direct": od, "trusted_proxy": ot},
 			Coq: vf.CoqApp("tcs", vf.CoqBool(fixedF10), lreq, od.coq(), ot.coq()), Nontrivial: q.Query != "", Tags: tags})
+	}
+}
+
+// ---------------------------------------------------------------- third stream: requests in flight at the same time
+
+// TestVerifC13Interleaved: what the pipeline of a request sees of ITS body must be a function of that
+// request's own bytes at every later time, at every entry point.  Request 1 goes through a rule whose
+// pipeline reads the body (payload template of a generic contextualizer: first read, decoded and cached),
+// then waits for the contextualizer's endpoint — the driver's hook server, which meanwhile sends request 2
+// (same content type, same length, other values) through an entry point whose pipeline reads ITS body —
+// and then reads the body again (header finalizer).  All body content types x all three entry points for
+// request 1 x all three for request 2.  The test runs with GOMAXPROCS(1), so that anything recycled
+// through a sync.Pool by request 1's goroutine is what request 2's goroutine gets.
+
+func c13ILConfig(hookURL string) string {
+	return `
+mechanisms:
+  authenticators:
+    - id: anon
+      type: anonymous
+  contextualizers:
+    - id: hook
+      type: generic
+      config:
+        endpoint:
+          url: ` + hookURL + `
+          method: POST
+        payload: '{{ .Request.Body | toJson }}'
+        cache_ttl: 0s
+  finalizers:
+    - id: hdr
+      type: header
+      config:
+        headers:
+          X-B2: '{{ .Request.Body | toJson | b64enc }}'
+`
+}
+
+func c13ILRules(up string) string {
+	return `
+version: "1alpha4"
+name: c13il
+rules:
+  - id: first
+    match:
+      routes:
+        - path: /p/**
+    forward_to:
+      host: ` + up + `
+      rewrite:
+        scheme: http
+    execute:
+      - authenticator: anon
+      - contextualizer: hook
+      - finalizer: hdr
+  - id: second
+    match:
+      routes:
+        - path: /q/**
+    forward_to:
+      host: ` + up + `
+      rewrite:
+        scheme: http
+    execute:
+      - authenticator: anon
+      - finalizer: hdr
+`
+}
+
+type c13ILPair struct {
+	CT     string `json:"content_type"`
+	First  string `json:"first"`
+	Second string `json:"second"`
+}
+
+var c13ILPairs = []c13ILPair{
+	{"application/x-www-form-urlencoded", "role=viewer&user=alice", "role=admin1&user=mallo"},
+	{"application/x-www-form-urlencoded", "a=1&b=2&c=3", "x=9&y=8&z=7"},
+	{"application/x-www-form-urlencoded", "role=viewer", "role=admin1&more=1"},
+	{"application/x-www-form-urlencoded", "k=v+w&p=a%20b", "k=zzz&p=qqqqqq"},
+	{"application/json", `{"role":"viewer","n":[1,2]}`, `{"role":"admin1","n":[3,4]}`},
+	{"application/json", `{"a":{"b":"c"}}`, `{"x":{"y":"z"}}`},
+	{"application/json; charset=utf-8", `"just a string"`, `"other  string"`},
+	{"application/yaml", "role: viewer\nuser: alice\n", "role: admin1\nuser: mallo\n"},
+	{"application/yaml", "list: [a, b]\n", "list: [x, y]\n"},
+	{"text/plain", "hello world, this is request 1", "HELLO WORLD, THIS IS REQUEST 2"},
+	{"application/unknown", "opaque-bytes-0001", "OPAQUE-BYTES-0002"},
+	{"application/json", "{bad json 1", "{BAD JSON 2"},
+}
+
+type c13ILObs struct {
+	Status int    `json:"status"`
+	B1     string `json:"b1"` // the body as the pipeline saw it first (payload received by the hook)
+	B2     string `json:"b2"` // the body as the pipeline saw it after the other request had read its body
+	Hook   int    `json:"hook_calls"`
+	Err    string `json:"err,omitempty"`
+}
+
+func (o c13ILObs) coq() string {
+	return vf.CoqApp("iob", vf.CoqZ(int64(o.Status)), vf.CoqStr(o.B1), vf.CoqStr(o.B2), vf.CoqBool(o.Err == "" && o.Hook == 1))
+}
+
+func TestVerifC13Interleaved(t *testing.T) {
+	prev := runtime.GOMAXPROCS(1)
+	defer runtime.GOMAXPROCS(prev)
+
+	w := vf.NewWriter()
+	defer w.Close()
+
+	up := assembly.NewUpstream()
+	defer up.Close()
+
+	var (
+		hookCalls   int
+		hookPayload string
+		fireSecond  func()
+	)
+
+	hook := httptest.NewServer(http.HandlerFunc(func(rw http.ResponseWriter, req *http.Request) {
+		b, _ := io.ReadAll(req.Body)
+		hookCalls++
+		hookPayload = string(b)
+
+		if fireSecond != nil {
+			f := fireSecond
+			fireSecond = nil
+
+			f() // request 2 is served while request 1 waits for this response
+		}
+
+		rw.Header().Set("Content-Type", "application/json")
+		_, _ = rw.Write([]byte("{}"))
+	}))
+	defer hook.Close()
+
+	cfg, rules := c13ILConfig(hook.URL), c13ILRules(up.Host)
+
+	dec, err := assembly.StartHandler(assembly.Decision, cfg, rules)
+	if err != nil {
+		t.Fatal(err)
+	}
+	defer dec.Stop()
+
+	prx, err := assembly.StartHandler(assembly.Proxy, cfg, rules)
+	if err != nil {
+		t.Fatal(err)
+	}
+	defer prx.Stop()
+
+	env, err := assembly.StartEnvoyHandler(cfg, rules)
+	if err != nil {
+		t.Fatal(err)
+	}
+	defer env.Stop()
+
+	// send one request through an entry point; returns status and the decoded X-B2
+	send := func(entry int, path, ct, body string) (int, string, string) {
+		q := c13Req{Method: "POST", Host: "a.example.com", Path: path, Peer: "10.0.0.1", Pack: "raw",
+			Headers: []c13Hdr{{"Content-Type", ct}, {"Content-Length", strconv.Itoa(len(body))}}, Body: body}
+
+		var enc string
+
+		switch entry {
+		case 0, 1:
+			req, err := assembly.ParseRaw(q.raw(), "10.0.0.1:4711", false)
+			if err != nil {
+				return -1, "", err.Error()
+			}
+
+			if entry == 0 {
+				rec := dec.Serve(req)
+				if statusOf(rec.Code) != 0 {
+					return rec.Code, "", ""
+				}
+
+				enc = rec.Header().Get("X-B2")
+			} else {
+				up.Take()
+
+				rec := prx.Serve(req)
+				seen := up.Take()
+
+				if statusOf(rec.Code) != 0 || len(seen) != 1 {
+					return rec.Code, "", fmt.Sprintf("upstream saw %d requests", len(seen))
+				}
+
+				enc = seen[0].Get("X-B2")
+			}
+		default:
+			resp, err := env.Check(context.Background(), q.envoy())
+			if err != nil {
+				return -1, "", err.Error()
+			}
+
+			ok := resp.GetOkResponse()
+			if ok == nil {
+				return int(resp.GetDeniedResponse().GetStatus().GetCode()), "", ""
+			}
+
+			for _, h := range ok.GetHeaders() {
+				if h.GetHeader().GetKey() == "X-B2" {
+					enc = h.GetHeader().GetValue()
+				}
+			}
+		}
+
+		b, err := base64.StdEncoding.DecodeString(enc)
+		if err != nil {
+			return 0, "", err.Error()
+		}
+
+		return 0, string(b), ""
+	}
+
+	root := vf.NewRand(vf.Seed())
+	n := vf.N(120)
+	names := []string{"decision", "proxy", "envoy"}
+
+	type ilCase struct {
+		Pair         c13ILPair `json:"pair"`
+		SecondEntry  [3]int    `json:"second_request_through"`
+		SecondBefore bool      `json:"other_request_also_before"`
+	}
+
+	for i := 0; i < n; i++ {
+		if !vf.Want(i) {
+			continue
+		}
+
+		r := root.Fork(uint64(800000 + i))
+
+		var c ilCase
+		if i < len(c13ILPairs) {
+			c = ilCase{Pair: c13ILPairs[i], SecondEntry: [3]int{0, 1, 2}}
+		} else {
+			c = ilCase{Pair: vf.Pick(r, c13ILPairs), SecondEntry: [3]int{r.Intn(3), r.Intn(3), r.Intn(3)}, SecondBefore: r.Chance(30)}
+
+			if r.Chance(40) { // other values of the same shape: swap the two
+				c.Pair.First, c.Pair.Second = c.Pair.Second, c.Pair.First
+			}
+		}
+
+		obs := map[string]c13ILObs{}
+		coq := []string{}
+
+		for e := 0; e < 3; e++ {
+			if c.SecondBefore {
+				send(c.SecondEntry[e], "/q/warm", c.Pair.CT, c.Pair.Second)
+			}
+
+			hookCalls, hookPayload = 0, ""
+			second := c.SecondEntry[e]
+			fireSecond = func() { send(second, "/q/other", c.Pair.CT, c.Pair.Second) }
+
+			st, b2, errs := send(e, "/p/one", c.Pair.CT, c.Pair.First)
+			o := c13ILObs{Status: statusOf(st), B1: hookPayload, B2: b2, Hook: hookCalls, Err: errs}
+
+			if st == 200 {
+				o.Status = 0
+			}
+
+			obs[names[e]] = o
+			coq = append(coq, o.coq())
+		}
+
+		expected := c13Decode(c.Pair.CT, c.Pair.First) // the decoder's answer on request 1's own bytes
+
+		w.Put(vf.Obs{I: i, Stream: "interleaved", In: c, Out: obs,
+			Coq: vf.CoqApp("ics", vf.CoqStr(expected), vf.CoqList(coq)), Nontrivial: true,
+			Tags: []string{"il:content-type=" + c.Pair.CT, fmt.Sprintf("il:second-through=%v", c.SecondEntry)}})
 	}
 }
